@@ -181,6 +181,9 @@ func enumerate(w *runner.W, run func(Case, *runner.Rec)) {
 			list = append(list, []int{h}, []int{h, 0}, []int{h, 2}, []int{h, 32769}, []int{0, h}, []int{32769, h}, []int{2, h, 0}, []int{32769, h, 2})
 		}
 		list = append(list, []int{1*MiB + 1, 4*MiB + 1}, []int{4*MiB + 1, 1*MiB + 1, 0})
+		// beyond any data-op size: containers of big builds and copy-only bsdiff controls
+		// are single messages of arbitrary size
+		list = append(list, []int{4*MiB + 65536 + 9}, []int{2, 6*MiB + 3, 0}, []int{9*MiB + 1, 32769})
 		comps := compsT
 		kinds := []string{"rand", "text"}
 		if quick {
